@@ -2,6 +2,7 @@ package minibus
 
 import (
 	"context"
+	"github.com/smart-core-os/sc-golang/internal/verifhook"
 	"sync"
 )
 
@@ -18,6 +19,7 @@ func (b *Bus) Send(ctx context.Context, event any) (ok bool) {
 		listeners = append(listeners, l)
 	}
 	b.listenerM.RUnlock()
+	verifhook.Yield("Bus.Send:after-snapshot")
 
 	needGc := false
 
@@ -67,6 +69,7 @@ func (b *Bus) Listen(ctx context.Context) <-chan any {
 		l.stop()
 	}()
 
+	verifhook.Yield("Bus.Listen:before-register")
 	// store the listener
 	b.listenerM.Lock()
 	defer b.listenerM.Unlock()
